@@ -241,9 +241,11 @@ func c02ScPanic(c *c02Ctx, e *c02Env, do c02Doer, rt *c02Route, sc *c02Script, r
 	}
 	at := sc.index("panic")
 	mo := sc.model(run.id, at)
+	kind := sc.Steps[at].V
+	c.m.Count("panic_value_"+kind, 1)
 	switch {
 	case resp.Err != "":
-		c.violate(class+":no-response", run, resp, "panicking handler left the client without a response: %s", resp.Err)
+		c.violate(class+":no-response:"+kind, run, resp, "handler panicked with a %q value (committed=%v) and the client was left without any response: %s", kind, mo.committed, resp.Err)
 		return false
 	case !mo.committed:
 		if resp.Status != http.StatusInternalServerError {
@@ -271,9 +273,33 @@ func c02ScPanic(c *c02Ctx, e *c02Env, do c02Doer, rt *c02Route, sc *c02Script, r
 	if !c02ScFast(c, e, do, rt, nx, "after-panic") {
 		return false
 	}
-	c.m.Case(fmt.Sprintf("%s|%s|st=%d|body=%v", c.obs, class, mo.status, len(mo.body) > 0), true)
+	c.m.Case(fmt.Sprintf("%s|%s|st=%d|body=%v|val=%s|at=%d", c.obs, class, mo.status, len(mo.body) > 0, kind, c02Clamp(int64(at))), true)
 	if mo.committed && len(mo.body) > 0 {
 		c.sampleOnce(class, map[string]any{"route": rt.Path, "script": sc, "client_saw": resp.String()})
+	}
+	return true
+}
+
+// c02PanicAlphabetRoutes: routes needed by c02ScPanicAlphabet so that no route's
+// breaker sees more than 4 answers >= 500.
+var c02PanicAlphabetRoutes = (2*len(c02PanicKinds)+3)/4 + 1
+
+// c02ScPanicAlphabet: every panic value kind x {first thing, after headers only,
+// after a commit}. The uncommitted ones (500) are spread over routes[:n-1], four
+// per route; the committed ones go to the last route.
+func c02ScPanicAlphabet(c *c02Ctx, e *c02Env, do c02Doer, routes []*c02Route, r *rand.Rand) bool {
+	fail := 0
+	for _, kind := range c02PanicKinds {
+		for _, mode := range []string{"first", "hdrs"} {
+			rt := routes[(fail/4)%(len(routes)-1)]
+			fail++
+			if !c02ScPanic(c, e, do, rt, c02GenPanicAt(r, mode, kind), r) {
+				return false
+			}
+		}
+		if !c02ScPanic(c, e, do, routes[len(routes)-1], c02GenPanicAt(r, "committed", kind), r) {
+			return false
+		}
 	}
 	return true
 }
